@@ -827,6 +827,20 @@ def lookup_variants(rec, spy, inner, runs):
             out["toggle"] = tog
         except Exception as ex:
             out["toggle"] = {"error": type(ex).__name__ + ": " + str(ex)[:200]}
+        try:
+            # the caller's own filter dict (matches every recording: a key nobody sets must be absent): a default lookup,
+            # then the same object with skip_incomplete switched off, then the same DICT given to a new object
+            flt = {"verif_no_such_key": [None]}
+            p = RecordingLookupProperties(start_date=None, metadata=flt)
+            look = lambda q: {c: sorted(spy.ords.get(i, -1) for i in find_matching_recording_ids(rec, c, q)) for c in cats}  # noqa: E731
+            own = {"on": look(p)}
+            p.skip_incomplete = False
+            own["off"] = look(p)
+            own["other_object"] = look(RecordingLookupProperties(start_date=None, metadata=flt, skip_incomplete=False))
+            own["filter_keys_after"] = sorted(flt)
+            out["own_filter"] = own
+        except Exception as ex:
+            out["own_filter"] = {"error": type(ex).__name__ + ": " + str(ex)[:200]}
     finally:
         rec.tape_cassette = spy
     return out
